@@ -27,7 +27,7 @@ inline RegisterValue to_value(int type, uint64_t raw, int fill = 0xa5) {
     }
     return v;
 }
-inline RegisterValueU to_valueu(int type, uint64_t raw) { return to_value(type, raw, 0).value; }
+inline RegisterValueU to_valueu(int type, uint64_t raw, int fill = 0x3c) { return to_value(type, raw, fill).value; }   // definitions too: an entry built member by member has whatever was in memory around the member
 inline uint64_t from_value(const RegisterValue &v) {
     switch ((int)v.type) {
     case rm::U16: return v.value.u16;
@@ -88,12 +88,12 @@ struct Live {
         for (size_t i = 0; i < ne; i++) {
             const RegD &r = td.regs[i];
             RegisterEntry &e = entries[i];
-            e.type = (RegisterType)r.type; e.address = r.addr; e.default_value = to_valueu(r.type, r.def);
+            e.type = (RegisterType)r.type; e.address = r.addr; e.default_value = to_valueu(r.type, r.def, 0x3c);   // different leftovers around default and limits
             e.check.type = (RegisterValidatorType)r.ckind;
             switch (r.ckind) {
-            case rm::C_MIN: e.check.arg.min = to_valueu(r.type, r.lo); break;
-            case rm::C_MAX: e.check.arg.max = to_valueu(r.type, r.hi); break;
-            case rm::C_RANGE: e.check.arg.range.min = to_valueu(r.type, r.lo); e.check.arg.range.max = to_valueu(r.type, r.hi); break;
+            case rm::C_MIN: e.check.arg.min = to_valueu(r.type, r.lo, 0xc3); break;
+            case rm::C_MAX: e.check.arg.max = to_valueu(r.type, r.hi, 0x1d); break;
+            case rm::C_RANGE: e.check.arg.range.min = to_valueu(r.type, r.lo, 0xc3); e.check.arg.range.max = to_valueu(r.type, r.hi, 0x1d); break;
             case rm::C_CB: e.check.arg.cb = validator(r.cb); break;
             default: break;
             }
